@@ -268,15 +268,10 @@ MUTATORS = {
 
 
 def session_mutations(ctx):
-    """All Push/Remove/Clear/OtherDeque effects on Session collections, crate wide (depth 1: closures)."""
+    """All Push/Remove/Clear/OtherDeque effects on Session collections, crate wide; each piece of code is looked at
+    once, where it takes effect (ctx.client_units)."""
     out = []
-    hp = ctx.inbound_handler().path
-    hm = ctx.outbound_handler().path
-    for f in ctx.facts.fns:
-        if not f["path"].startswith("client::") or f["kind"] == "closure":
-            continue
-        body = ctx.world.body(f["path"])
-        role = "inbound" if f["path"] == hp else "outbound" if f["path"] == hm else f["path"].split("::")[-1] if not f["path"].endswith("}") else f["path"].split("::")[-2]
+    for role, body in ctx.client_units():
         for e in effects(ctx.world, body, 2, helpers=False):
             if e.kind in ("Push", "Remove", "Clear", "OtherDeque") and e.detail["fields"]:
                 out.append((role, e))
